@@ -175,8 +175,16 @@ def build_incremental(env, cls, cfg, faults=None, ctor_kwargs=None):
     d, q, m = cfg['d'], cfg.get('q', 1), cfg.get('m', 1)
     names = names_for(cfg.get('names', 'str'), d)
     labels = LABELSETS[cfg.get('labels', 1)]
-    model = UFModel(env, names, labels=labels, faults=faults, reads=cfg.get('_reads'),
-                    varying_labels=cfg.get('varlabels', False), memoise=cfg.get('memoise', False))
+    extra_reads, optional = [], []
+    if cfg.get('context_key'):
+        extra_reads.append('ctx')            # a model input that is not among the explained features
+    if cfg.get('row_only_key'):
+        extra_reads.append('w')
+        optional.append('w')                 # stored rows carry it, the explained instance does not
+    base_reads = cfg.get('_reads') if cfg.get('_reads') is not None else list(names)
+    model = UFModel(env, names, labels=labels, faults=faults, reads=list(base_reads) + extra_reads,
+                    varying_labels=cfg.get('varlabels', False), memoise=cfg.get('memoise', False), optional=optional,
+                    positional=cfg.get('positional', False))
     if cfg.get('loss', '').startswith('river:'):
         # a real, stateful river metric turned into a loss by the library's own validator (its purity is C13's subject)
         import river.metrics as _rm
@@ -216,6 +224,13 @@ def build_incremental(env, cls, cfg, faults=None, ctor_kwargs=None):
         pre = inject_explainer_state(env, ex, names, labels, sage=cls is IncrementalSage,
                                      efficiency_inv=cfg.get('eff_inv', True))
     x = sym_row(env, names, 'x')
+    if cfg.get('context_key'):
+        x['ctx'] = env.real('x_ctx')
+        for r_i, r in enumerate(rows):
+            r['ctx'] = env.real(f"row{r_i}_ctx")
+    if cfg.get('row_only_key'):
+        for r_i, r in enumerate(rows):
+            r['w'] = env.real(f"row{r_i}_w")
     y = env.real('y')
     return {'ex': ex, 'model': model, 'loss': loss, 'storage': storage, 'rows': rows, 'ys': ys, 'imputer': limp,
             'names': names, 'labels': labels, 'alpha': alpha, 'dynamic': dynamic, 'pre': pre, 'x': x, 'y': y,
